@@ -25,6 +25,10 @@ type Step struct {
 	Acts  []Action `json:"acts,omitempty"`  // tran: the actions; reopen: actions of the transaction left open
 	End   string   `json:"end,omitempty"`   // tran: commit | abort
 	GapMs int      `json:"gapms,omitempty"` // sleep
+	// Pad (reopen, heap storage): when > 0, before Close the session persists
+	// and pads the storage so that the final state record ends Pad-1 bytes
+	// before the end of its chunk (see Session.padBeforeClose).
+	Pad int `json:"pad,omitempty"`
 }
 
 // Opts are the relative weights of the step kinds and the value classes.
@@ -39,6 +43,10 @@ type Opts struct {
 	Invalid int // percent of admin requests generated without regard to the current state
 	Abort   int // percent of transactions that are aborted instead of committed
 	OpenTx  int // percent of reopen steps that leave a transaction with writes open
+	// PadClose: percent of reopen steps that pad the storage so that the final
+	// state record ends 0..16 bytes before a chunk boundary (1..7: the
+	// shutdown marker starts the next chunk)
+	PadClose int
 
 	// FkStress: percent of admin requests that are aimed at the foreign key /
 	// derived column neighbourhood: x_lower! columns and indexes on foreign
@@ -121,6 +129,9 @@ func GenStep(t *rapid.T, w *World, o Opts) *Step {
 		return &Step{Kind: KPersist}
 	case r < o.Admin+o.Tran+o.Persist+o.Reopen:
 		st := &Step{Kind: KReopen}
+		if pct(t, "padclose", o.PadClose) {
+			st.Pad = 1 + gen.Uniform(t, "padd", 17)
+		}
 		if len(w.Tables) > 0 && pct(t, "opentx", o.OpenTx) {
 			st.Acts = GenActions(t, w, o, uniform(t, "nopen", 1, 3))
 			st.Text = actsText(st.Acts)
